@@ -18,6 +18,10 @@ DESC = {
  "C10": ("Clause lists recorded from combine_cnf_with_requests for every (relation, n, k) up to the bound are judged by TLC: MCGadget enumerates all 2^n assignments and a DPLL counter written in TLA+ (Cnf.tla) decides whether exactly one / no extension to the auxiliary variables exists, against the arithmetic definition of the relation.", "6/C10"),
  "C11": ("Formulas (systematic depth<=1, seeded random depth 2-3 with shared subformulas) are converted by the three real functions; TLC evaluates the formula (Eval) and counts the CNF's extensions for every assignment of the original variables; fresh-variable ranges are checked.", "6/C11"),
  "C12": ("Adder and population-count clause builders for all widths up to the bound: for every input assignment TLC's DPLL finds the unique extension and compares the output bits with the sum (sticky top bit when saturating).", "6/C12"),
+ "C17": ("Specification -> code: for every design, sequences returned by the library and their well-formed perturbations (cell changes, swaps, truncation, extension) are labelled by TLC (MCTrace verdict) and by sample_mismatch_experiment; the labels must coincide in both directions.", "6/C17"),
+ "C24": ("Each documented law instance is built twice from fresh objects; in Blocks.tla both sides are ONE definition (MultiCrossBlock, Repeat and CrossBlock are defined through Merge), so both exhausted sets are validated/enumerated against the same meaning, and TLC (MCAgree) also compares the two recorded sets directly.", "6/C24"),
+ "C25": ("Nest designs (outer/inner free factors, constraints at the three places, nested Nest, outer MultiCrossBlock): exhausted sets of IterateSATGen and RandomGen against rule R8 of Blocks.tla/Design.tla (sustain groups, group-level crossing, stretched outer constraints) by trace validation and exhaustive enumeration.", "6/C25"),
+ "C26": ("The same constraint placed in the repeated/merged/nested block and on the combinator for every constraint kind, with preambles and trailing partial repetitions: exhausted sets of both samplers against the repetition windows of rule R6 (Blocks!Windows) by trace validation and exhaustive enumeration.", "6/C26"),
  "C16": ("Blocks.tla states the documented trial-count arithmetic (R1-R8); TLC evaluates it for every generated design and the result is compared with trials_per_sample(); the length clause of MCTrace covers returned sequences of three strategies; constructor refusals must agree with the specification.", "6/C16"),
 }
 TECH = {
@@ -31,6 +35,10 @@ TECH = {
  "C10": "TLC model enumeration of recorded clauses (DPLL in TLA+, Cnf.tla/MCGadget)",
  "C11": "TLC model enumeration of recorded clauses vs TLA+ formula evaluation (MCGadget)",
  "C12": "TLC model enumeration of recorded clauses vs TLA+ arithmetic (MCGadget)",
+ "C17": "TLC labels candidate sequences (MCTrace); labels compared with sample_mismatch_experiment",
+ "C24": "TLC enumeration + trace validation of both sides against one TLA+ definition; MCAgree set comparison",
+ "C25": "TLC enumeration + trace validation against Blocks!NestNB / Design sustain rules",
+ "C26": "TLC enumeration + trace validation against Blocks!Windows (per-repetition scoping)",
  "C16": "TLA+ block arithmetic (Blocks.tla) evaluated by TLC vs recorded trial counts",
 }
 EXTRA = {}
